@@ -896,7 +896,10 @@ impl SerdeObject for Fp {
         if bytes.len() != SIZE {
             return None;
         }
-        Some(Self::from_raw_bytes_unchecked(bytes))
+        // A Montgomery representation is valid iff its limbs, read as an
+        // integer, are in [0, p-1].
+        let out = Self::from_raw_bytes_unchecked(bytes);
+        is_valid_u64(&out.0.l).then_some(out)
     }
 
     fn to_raw_bytes(&self) -> Vec<u8> {
